@@ -24,6 +24,10 @@ WEAK_SC = {  # switch -> (base cfg, invariant(s) of which at least one must be r
     "Weak_SameKeyBothDirections": ("C16_weak_SameKeyBothDirections.cfg", ["NonceFresh", "PrefixExact"]),
     # the pre-transcript attack: same zero secret forced on both sides, signatures relayed
     "Weak_ChallengeDHOnly+Weak_AcceptLowOrder": ("C16_weak_LowOrderRelay.cfg", ["AuthenticatedExceptSelf"]),
+    # incrNonce only after a successful transport write: a late transport error makes the next frame reuse the nonce
+    "Weak_NonceAfterTransportWrite": ("C16_weak_NonceAfterTransportWrite.cfg", ["NonceFresh"]),
+    # ... and the attacker can put that next frame in the place of the failed one
+    "Weak_NonceAfterTransportWrite/replace": ("C16_weak_NonceAfterTransportWrite_drop.cfg", ["TamperFails"]),
 }
 WEAK_UP = {
     "Weak_NoDialedIDCheck": ("C16_weak_NoDialedIDCheck.cfg", ["IdentityBound"]),
@@ -91,7 +95,8 @@ def read_graph(path):
 def act_to_step(a):
     a = to_json(a)
     st = {"name": a["name"], "p": a.get("p", ""), "eph": a.get("eph", ""), "size": a.get("size", 0),
-          "op": a.get("op", ""), "i": a.get("i", 0), "pub": a.get("pub", ""), "nonce": a.get("nonce", 0)}
+          "op": a.get("op", ""), "i": a.get("i", 0), "pub": a.get("pub", ""), "nonce": a.get("nonce", 0),
+          "fail": a.get("fail", 0)}
     if "sig" in a:
         st["sig"] = a["sig"]
     return st
@@ -163,19 +168,19 @@ def _bounds(ctx):
             # exhaustive (VIEW without act)
             "hs": dict(MaxEdits=2),                                                            # 20 235 states
             "stream": dict(MaxFrames=3, MaxReads=3, MaxEdits=1, W="WOneWayQ", R="ROneWayQ"),    # 12 720
-            "duplex": dict(MaxFrames=2, MaxReads=2, MaxEdits=1),                                # 14 298
+            "duplex": dict(MaxFrames=2, MaxReads=2, MaxEdits=1, MaxFaults=0),                   # 14 298
             "full": dict(MaxFrames=2, MaxReads=1, MaxEdits=1),                                  #  3 689
             # act-augmented graphs that are replayed completely on the real code
             "g_hs": dict(MaxEdits=1, Ranks="RanksOne"),
-            "g_stream": dict(MaxFrames=2, MaxReads=2, MaxEdits=1, W="WOneWayQ", R="ROneWayQ", Ranks="RanksOne"),
+            "g_stream": dict(MaxFrames=2, MaxReads=2, MaxEdits=1, MaxFaults=1, W="WOneWayG", R="ROneWayG", Ranks="RanksOne"),
             "g_full": None,
             "sim": 100, "random": 300, "random_big": 30,
         }
     return {
         "hs": dict(MaxEdits=2),
-        "stream": dict(MaxFrames=3, MaxReads=3, MaxEdits=2, W="WOneWayQ", R="ROneWayQ"),        # 155 318
+        "stream": dict(MaxFrames=3, MaxReads=3, MaxEdits=2, MaxFaults=0, W="WOneWayQ", R="ROneWayQ"),   # 155 318
         "stream_all": dict(MaxFrames=3, MaxReads=3, MaxEdits=1, W="WOneWay", R="ROneWay"),
-        "duplex": dict(MaxFrames=3, MaxReads=3, MaxEdits=1),                                    # 251 170
+        "duplex": dict(MaxFrames=3, MaxReads=3, MaxEdits=1, MaxFaults=0),                       # 251 170
         "full": dict(MaxFrames=2, MaxReads=2, MaxEdits=1),
         "g_hs": dict(MaxEdits=1),                                                               # all three key orders, one edit
         "g_hs2": dict(MaxEdits=2, Ranks="RanksOne"),                                            # one key order, two edits
@@ -454,7 +459,7 @@ def replay(ctx, path):
     for r in prefix[1:]:
         ev = r["ev"]
         st = {"name": ev, "p": r.get("p", ""), "eph": r.get("eph", ""), "size": r.get("size", 0), "op": r.get("op", ""),
-              "i": r.get("i", 0), "pub": r.get("pub", ""), "nonce": r.get("nonce", 0)}
+              "i": r.get("i", 0), "pub": r.get("pub", ""), "nonce": r.get("nonce", 0), "fail": r.get("fail", 0)}
         if ev == "M" and r.get("op") == "forge":
             st["sig"] = r["sig"]
         steps.append(st)
